@@ -87,17 +87,20 @@ def digitRun : Bytes → Nat
   | [] => 0
   | c :: r => if isDigit c then digitRun r + 1 else 0
 
+/-- the last test of ConsumeSimpleNumber: `len(b) <= n || (b[n] != '.' && b[n] != 'e' && b[n] != 'E')`
+with `rest = b[n:]`. -/
+def simpleNumberFin (n : Nat) (rest : Bytes) : Nat :=
+  match rest with
+  | [] => n
+  | d :: _ => if d != 0x2E && d != 0x65 && d != 0x45 then n else 0
+
 /-- `ConsumeSimpleNumber` (decode.go:426). -/
 def consumeSimpleNumber (b : Bytes) : Nat :=
-  let fin (n : Nat) (rest : Bytes) : Nat :=
-    match rest with
-    | [] => n
-    | d :: _ => if d != 0x2E && d != 0x65 && d != 0x45 then n else 0
   match b with
   | [] => 0
   | c :: r =>
-    if c == 0x30 then fin 1 r
-    else if isDigit19 c then fin (1 + digitRun r) (r.drop (digitRun r))
+    if c == 0x30 then simpleNumberFin 1 r
+    else if isDigit19 c then simpleNumberFin (1 + digitRun r) (r.drop (digitRun r))
     else 0
 
 /-- `ConsumeNumberState` values. -/
